@@ -193,7 +193,7 @@ type privFreeRec struct {
 func (f *FnVC) notePrivateFreeVars() {
 	for i, fv := range f.Fn.FreeVars {
 		pt, isPtr := fv.Type().Underlying().(*types.Pointer)
-		if !isPtr || isAggregate(pt.Elem()) || isArray(pt.Elem()) {
+		if !isPtr {
 			continue
 		}
 		ok, writers := privateFreeVar(f.Fn, i)
@@ -204,6 +204,9 @@ func (f *FnVC) notePrivateFreeVars() {
 		if !have || v.T.Sort != SRef {
 			continue
 		}
-		f.privFree = append(f.privFree, privFreeRec{ref: v.T, writers: writers})
+		// a struct-valued variable occupies its cell and the cells of its nested aggregates
+		for _, r := range f.objectRefs(v.T, pt.Elem(), 0) {
+			f.privFree = append(f.privFree, privFreeRec{ref: r, writers: writers})
+		}
 	}
 }
